@@ -497,7 +497,16 @@ def check_fold_unfold(rep, prog, m):
     from sa import miniexec as _mx
     okr, det_r = True, []
     for D in (1, 2, 3, 4):
-        it_ = _mx.Interp(prog, prog.mod(NUM))
+        def _conv(nm_, args_, kw_, D=D):
+            # conversions that keep a masked array / Spectrum as it is return their argument; numpy.asarray / numpy.array / .data
+            # give the bare data (the mask is dropped): the result is then no longer the mirror image of the masked input
+            last_ = nm_.split('.')[-1]
+            if last_ in ('asanyarray',) and len(args_) == 1 and not kw_:
+                return args_[0]
+            if last_ in ('asarray', 'array', 'ascontiguousarray', 'getdata') and nm_.split('.')[0] in ('numpy', 'np') and args_:
+                return _mx.Sym('%s(%s)' % (nm_, _mx.show(args_[0])), attrs={'shape': _mx.Sym('arr.shape', length=D), 'ndim': D})
+            return NotImplemented
+        it_ = _mx.Interp(prog, prog.mod(NUM), call_hook=_conv)
         try:
             paths_ = it_.run(ra, {'arr': _mx.Sym('arr', attrs={'shape': _mx.Sym('arr.shape', length=D), 'ndim': D})})
         except _mx.Undecidable as e:
@@ -509,7 +518,8 @@ def check_fold_unfold(rep, prog, m):
             key = key if isinstance(key, tuple) else (key,)
             if not (len(key) == D and all(isinstance(k_, slice) and k_.start is None and k_.stop is None and k_.step == -1 for k_ in key)):
                 okr = False
-                det_r.append('%d-D: returns %s' % (D, _mx.show(v)[:60] if v is not None else outcome))
+                det_r.append('%d-D: returns %s' % (D, _mx.show(v)[:60] if v is not None else outcome) +
+                             (' (the argument is converted to a bare ndarray first: the mask of a masked spectrum is not mirrored)' if st_ and st_[0] == 'index' and '(arr)' in _mx.show(st_[1]) else ''))
     rep.ob('R-TPL', 'Numerics.reverse_array', okr, '; '.join(det_r[:2]) if det_r else 'returns arr indexed by slice(None, None, -1) on every axis (1..4 dimensions executed abstractly)', prog.mod(NUM).rel, ra.lineno,
            what='every axis is reversed')
 
